@@ -263,3 +263,10 @@ def run_extra(cx):
                         g = [a for a, p in cx.guards(b, bi) if p and a[0] == 'lt']
                         ok = any(match('(lt (anyphi (loop)) (mul 2.0 (field radius (field ball (field circle (itervar (param stations)))))))', a) is not None for a in g)
         cx.ob('EXPR', 'find_tmax_circle', ok, 'the thickest station is a running maximum over ALL stations by diameter (replaced only under strictly larger)', where=b.file)
+
+
+def run_thorough(cx):
+    """thorough tier: the generic evaluators this property relies on must fire on their positive fixture twins"""
+    from rules import fixture_check as FX
+    FX.paramuse(cx)
+    FX.enc(cx)
